@@ -196,7 +196,8 @@ theorem dom_raiseFirst {g : Fsg} {p : Link → Bool} {lp : Int} {l0 : Link}
 theorem nullAdd_start (g : Fsg) (a c : Nat) (lp : Int) :
     (nullAdd g a c lp).1.start = g.start ∧ (nullAdd g a c lp).1.final = g.final ∧
     (nullAdd g a c lp).1.nState = g.nState ∧ (nullAdd g a c lp).1.vocab = g.vocab ∧
-    (nullAdd g a c lp).1.sil = g.sil ∧ (nullAdd g a c lp).1.alt = g.alt ∧ (nullAdd g a c lp).1.name = g.name := by
+    (nullAdd g a c lp).1.sil = g.sil ∧ (nullAdd g a c lp).1.alt = g.alt ∧ (nullAdd g a c lp).1.name = g.name ∧
+    (nullAdd g a c lp).1.logZero = g.logZero := by
   unfold nullAdd; split
   · simp
   · split
@@ -253,58 +254,105 @@ theorem nullAdd_ext {g : Fsg} {a c : Nat} {lp : Int} (h : ∃ v, lp ≤ v ∧ Ru
     Ext g (nullAdd g a c lp).1 :=
   ⟨nullAdd_dom g a c lp, nullAdd_sim h, (nullAdd_start g a c lp).1, (nullAdd_start g a c lp).2.1⟩
 
-/-! ### the closure loop only extends -/
+/-! ### the closure loop only extends: language (for every grammar and every saturation point) -/
 
-theorem innerStep_ext {a : Nat} {lp1 : Int} {s : PassSt} {tl2 : Link}
-    (h : ∃ v, lp1 + tl2.logp ≤ v ∧ Run s.g a [] v tl2.dst) : Ext s.g (innerStep a lp1 s tl2).g :=
-  nullAdd_ext h
+/-- weight-free simulation: every link of `g'` is matched in `g` by a path with the same label -/
+def LSim (g' g : Fsg) : Prop := ∀ l' ∈ g'.links, ∃ v, Run g l'.src (lab l'.wid) v l'.dst
 
-theorem innerFold_ext {a : Nat} {lp1 : Int} : ∀ (tl2s : List Link) (s : PassSt),
-    (∀ tl2 ∈ tl2s, ∃ v, lp1 + tl2.logp ≤ v ∧ Run s.g a [] v tl2.dst) →
-    Ext s.g (tl2s.foldl (innerStep a lp1) s).g
-  | [], s, _ => Ext.refl _
+theorem Run.lsim {g g' : Fsg} (h : LSim g' g) {p ws v q} (r : Run g' p ws v q) : ∃ v', Run g p ws v' q := by
+  induction r with
+  | nil => exact ⟨0, .nil⟩
+  | @eps l ws v r hm hw _ ih =>
+    obtain ⟨v', r'⟩ := ih
+    obtain ⟨x, rx⟩ := h l hm
+    rw [hw] at rx
+    exact ⟨x + v', by simpa [lab] using rx.trans r'⟩
+  | @sym l w ws v r hm hw _ ih =>
+    obtain ⟨v', r'⟩ := ih
+    obtain ⟨x, rx⟩ := h l hm
+    rw [hw] at rx
+    exact ⟨x + v', by simpa [lab] using rx.trans r'⟩
+
+theorem LSim.refl (g : Fsg) : LSim g g := fun _ h => ⟨_, Run.single h⟩
+
+theorem LSim.trans {a b c : Fsg} (h1 : LSim a b) (h2 : LSim b c) : LSim a c := by
+  intro l hl
+  obtain ⟨v, r⟩ := h1 l hl
+  exact r.lsim h2
+
+theorem Sim.lsim {g g' : Fsg} (h : Sim g' g) : LSim g' g := fun l hl => by
+  obtain ⟨v, _, r⟩ := h l hl; exact ⟨v, r⟩
+
+/-- `g'` extends `g` without changing the language (weights of new links are not constrained) -/
+structure LExt (g g' : Fsg) : Prop where
+  dom : Dom g g'
+  lsim : LSim g' g
+  start : g'.start = g.start
+  final : g'.final = g.final
+
+theorem LExt.refl (g : Fsg) : LExt g g := ⟨Dom.refl g, LSim.refl g, rfl, rfl⟩
+
+theorem LExt.trans {a b c : Fsg} (h1 : LExt a b) (h2 : LExt b c) : LExt a c :=
+  ⟨h1.dom.trans h2.dom, h2.lsim.trans h1.lsim, h2.start.trans h1.start, h2.final.trans h1.final⟩
+
+theorem Ext.lext {g g' : Fsg} (h : Ext g g') : LExt g g' := ⟨h.dom, h.sim.lsim, h.start, h.final⟩
+
+theorem LExt.accepts_iff {g g' : Fsg} (h : LExt g g') (ws : List Nat) : accepts g' ws ↔ accepts g ws := by
+  unfold accepts; rw [h.start, h.final]
+  constructor
+  · rintro ⟨v, r⟩; exact r.lsim h.lsim
+  · rintro ⟨v, r⟩; obtain ⟨v', _, r'⟩ := r.dom h.dom; exact ⟨v', r'⟩
+
+theorem nullAdd_lext {g : Fsg} {a c : Nat} {lp : Int} (h : ∃ v, Run g a [] v c) : LExt g (nullAdd g a c lp).1 := by
+  refine ⟨nullAdd_dom g a c lp, fun x hx => ?_, (nullAdd_start g a c lp).1, (nullAdd_start g a c lp).2.1⟩
+  rcases mem_nullAdd hx with hx | ⟨rfl, rfl, hw, _, _⟩
+  · exact ⟨_, Run.single hx⟩
+  · obtain ⟨v, r⟩ := h; exact ⟨v, by rw [hw]; exact r⟩
+
+theorem innerFold_lext {z : Int} {a : Nat} {lp1 : Int} : ∀ (tl2s : List Link) (s : PassSt),
+    (∀ tl2 ∈ tl2s, ∃ v, Run s.g a [] v tl2.dst) → LExt s.g (tl2s.foldl (innerStep z a lp1) s).g
+  | [], _, _ => LExt.refl _
   | t :: ts, s, h => by
-    have e1 : Ext s.g (innerStep a lp1 s t).g := innerStep_ext (h t List.mem_cons_self)
-    refine e1.trans (innerFold_ext ts _ fun tl2 hm => ?_)
-    obtain ⟨v, hv, r⟩ := h tl2 (List.mem_cons_of_mem _ hm)
-    obtain ⟨v', hv', r'⟩ := r.dom e1.dom
-    exact ⟨v', Int.le_trans hv hv', r'⟩
+    have e1 : LExt s.g (innerStep z a lp1 s t).g := nullAdd_lext (h t List.mem_cons_self)
+    refine e1.trans (innerFold_lext ts _ fun tl2 hm => ?_)
+    obtain ⟨v, r⟩ := h tl2 (List.mem_cons_of_mem _ hm)
+    obtain ⟨v', _, r'⟩ := r.dom e1.dom
+    exact ⟨v', r'⟩
 
-theorem outerStep_ext (s : PassSt) (k : Key) : Ext s.g (outerStep s k).g := by
+theorem outerStep_lext (z : Int) (s : PassSt) (k : Key) : LExt s.g (outerStep z s k).g := by
   unfold outerStep
   cases hlk : nullLookup s.g k.1 k.2 with
-  | none => exact Ext.refl _
+  | none => exact LExt.refl _
   | some lp1 =>
     simp only
     obtain ⟨l1, m1, w1, s1, d1, p1⟩ := nullLookup_some hlk
-    apply innerFold_ext
+    apply innerFold_lext
     intro tl2 hm
     have hm' := List.mem_filter.1 hm
     have hw2 : tl2.wid = none := by
       have := hm'.2; simp [Link.isNull, Option.isNone_iff_eq_none] at this; exact this.1
     have hs2 : tl2.src = k.2 := by
       have := hm'.2; simp [Link.isNull] at this; exact this.2
-    refine ⟨lp1 + tl2.logp, Int.le_refl _, ?_⟩
     have r2 : Run s.g tl2.src [] (tl2.logp + 0) tl2.dst := .eps hm'.1 hw2 .nil
     have r1 : Run s.g l1.src [] (l1.logp + (tl2.logp + 0)) tl2.dst := .eps m1 w1 (by rw [d1, ← hs2]; exact r2)
-    simpa [s1, p1] using r1
+    exact ⟨_, by rw [s1] at r1; exact r1⟩
 
-theorem outerFold_ext : ∀ (ks : List Key) (s : PassSt), Ext s.g (ks.foldl outerStep s).g
-  | [], _ => Ext.refl _
-  | k :: ks, s => (outerStep_ext s k).trans (outerFold_ext ks _)
+theorem outerFold_lext (z : Int) : ∀ (ks : List Key) (s : PassSt), LExt s.g (ks.foldl (outerStep z) s).g
+  | [], _ => LExt.refl _
+  | k :: ks, s => (outerStep_lext z s k).trans (outerFold_lext z ks _)
 
-theorem pass_ext (g : Fsg) (nulls : List Key) : Ext g (pass g nulls).g :=
-  outerFold_ext nulls { g, nulls, updated := false }
+theorem pass_lext (z : Int) (g : Fsg) (nulls : List Key) : LExt g (pass z g nulls).g :=
+  outerFold_lext z nulls { g, nulls, updated := false }
 
-theorem closureLoop_ext : ∀ (fuel : Nat) (g : Fsg) (nulls : List Key), Ext g (closureLoop fuel g nulls).1
-  | 0, g, _ => Ext.refl g
+theorem closureLoop_lext (z : Int) : ∀ (fuel : Nat) (g : Fsg) (nulls : List Key), LExt g (closureLoop z fuel g nulls).1
+  | 0, g, _ => LExt.refl g
   | fuel + 1, g, nulls => by
     simp only [closureLoop]
     split
-    · exact (pass_ext g nulls).trans (closureLoop_ext fuel _ _)
-    · exact pass_ext g nulls
+    · exact (pass_lext z g nulls).trans (closureLoop_lext z fuel _ _)
+    · exact pass_lext z g nulls
 
-theorem closure_ext (g : Fsg) : Ext g (closure g) := closureLoop_ext _ g _
+theorem closure_lext (g : Fsg) : LExt g (closure g) := closureLoop_lext _ _ g _
 
 /-! ### projection to real words -/
 
@@ -427,6 +475,21 @@ theorem Ext.project {g g' : Fsg} (h : Ext g g') (F : Nat → Bool) (B : Nat → 
     Ext (project F B g) (project F B g') :=
   ⟨h.dom.project F B, h.sim.project F B, h.start, h.final⟩
 
+theorem LSim.project {g g' : Fsg} (h : LSim g' g) (F : Nat → Bool) (B : Nat → Nat) :
+    LSim (project F B g') (project F B g) := by
+  intro l hl
+  rw [project_links] at hl
+  obtain ⟨l0, h0, rfl⟩ := List.mem_map.1 hl
+  obtain ⟨v, r⟩ := h l0 h0
+  refine ⟨v, ?_⟩
+  have := run_project (F := F) (B := B) r
+  rw [lab_projLabel] at this
+  exact this
+
+theorem LExt.project {g g' : Fsg} (h : LExt g g') (F : Nat → Bool) (B : Nat → Nat) :
+    LExt (project F B g) (project F B g') :=
+  ⟨h.dom.project F B, h.lsim.project F B, h.start, h.final⟩
+
 /-- a transformation that only adds (or raises) links, each new link being either a relabelled
 copy of an old link with the same projection or a filler self-loop with log-probability `≤ 0`,
 preserves the projected grammar -/
@@ -454,7 +517,8 @@ theorem ext_project {F : Nat → Bool} {B : Nat → Nat} {g g' : Fsg}
 theorem transAdd_fields (g : Fsg) (a c : Nat) (lp : Int) (w : Nat) :
     (transAdd g a c lp w).start = g.start ∧ (transAdd g a c lp w).final = g.final ∧
     (transAdd g a c lp w).nState = g.nState ∧ (transAdd g a c lp w).vocab = g.vocab ∧
-    (transAdd g a c lp w).sil = g.sil ∧ (transAdd g a c lp w).alt = g.alt ∧ (transAdd g a c lp w).name = g.name := by
+    (transAdd g a c lp w).sil = g.sil ∧ (transAdd g a c lp w).alt = g.alt ∧ (transAdd g a c lp w).name = g.name ∧
+    (transAdd g a c lp w).logZero = g.logZero := by
   unfold transAdd; split
   · split <;> simp
   · simp
